@@ -140,7 +140,7 @@ func VF_C11_CommitStep(n int, nLive int, nDel int) {
 
 // C11: one Cleanup from an arbitrary policy state, every Remove free to fail.
 //
-// vf:harness property=C11 cases=n:1..3;nLive:0..3;nDel:0..2 cases.thorough=n:1..3;nLive:0..3;nDel:0..3 maporder=2 maxpaths=400000
+// vf:harness property=C11 cases=n:1..3;nLive:0..3;nDel:0..2 maporder=2 maxpaths=400000
 // vf:bounds as CommitStep; every directory Remove may fail (symbolic choice per call); safety asserted at every individual Remove call, invariant afterwards
 func VF_C11_CleanupStep(n int, nLive int, nDel int) {
 	if nLive > n || (nDel > 0 && nLive != n) {
